@@ -788,7 +788,7 @@ class Hist(Scenario):
         """The remote branch moves on (commits made in another clone) while this clone has uncommitted agent work (and, for
         `dup`, a local commit that the remote also contains as an identical patch); `git pull` in one of its forms brings it in."""
         rng = self.rng
-        kind = kind or rng.choice(["rebase-autostash", "rebase-autostash", "rebase-autostash-dup", "ff", "rebase-clean"])
+        kind = kind or rng.choice(["rebase-autostash", "rebase-autostash-dup", "rebase-autostash-dup", "ff", "rebase-clean"])
         base = self.current_branch() or "main"
         origin = self.ensure_origin()
         self.commit_all("before pull")
